@@ -21,8 +21,8 @@ descriptor handed to the child refers to, and what that file contains.
 * `execList` - the loop of `matches_exec` over a PREFIX of the list (no end-of-list cleanup);
   `uptoFork env pre mh st` - `matches_exec` on `pre ++ mh :: post` up to, and not including, the
   `fork` of the exec entry `mh`: the actions of `pre`, then `message_get_fd` for `mh`
-  (`Proofs.ExecSeq.matchesExec_factor`: the next call after it is that fork, with the returned
-  descriptor as the child's standard input).
+  (`C13_exec_stdin_fork_point`: `matches_exec` IS this program followed by a continuation whose
+  first call, after `AtFork.fork st' fd`, is that fork with `fd` as the child's standard input).
 * `rewrittenBefore pre msg orig` - the content produced by the rewriting actions (label,
   add-header) of `pre`: `message_write` of the in-memory message if there is one, else the
   original bytes.
@@ -38,7 +38,14 @@ def createsHandle : Call → Bool
 
 /-- `r` is a result call `c` can have in world `w`. -/
 def Possible (w : World) (c : Call) (r : Res) : Prop :=
-  (applyOk w c r).isSome = true ∧ (createsHandle c = true → ∀ v, r = .ok v → v = w.handles.length)
+  (applyOk w c r).isSome = true ∧
+  match r with
+  | .ok v => createsHandle c = true → v = w.handles.length
+  | _ => True
+
+instance (w : World) (c : Call) (r : Res) : Decidable (Possible w c r) := by
+  unfold Possible
+  cases r <;> exact inferInstance
 
 /-- Run a program against arbitrary results, threading the abstract file system
 (`stepWorld`: the effect of the call, and the call appended to `World.trace`). -/
@@ -50,6 +57,12 @@ def runW {α} (orc : Nat → Call → Res) : Prog α → World → Nat → α ×
 def PossibleRun {α} (orc : Nat → Call → Res) : Prog α → World → Nat → Prop
   | .ret _, _, _ => True
   | .call c k, w, i => Possible w c (orc i c) ∧ PossibleRun orc (k (orc i c)) (stepWorld w c (orc i c)) (i + 1)
+
+instance {α} (orc : Nat → Call → Res) : (p : Prog α) → (w : World) → (i : Nat) → Decidable (PossibleRun orc p w i)
+  | .ret _, _, _ => isTrue trivial
+  | .call c k, w, i =>
+    have := instDecidablePossibleRun orc (k (orc i c)) (stepWorld w c (orc i c)) (i + 1)
+    (inferInstance : Decidable (Possible w c (orc i c) ∧ PossibleRun orc (k (orc i c)) (stepWorld w c (orc i c)) (i + 1)))
 
 /-- label and add-header: the actions that write the message again (`maildir_write`). -/
 def isRewrite (m : Match) : Bool := m.ty == .label || m.ty == .addHeader
@@ -66,14 +79,21 @@ def execList (env : PEnv) : MatchList → ExecSt → Prog (ExecSt × Bool)
 /-- The part an exec entry is about (`mh_msg` of an entry collected inside an attachment block). -/
 def execPart (mh : Match) (ms : MsgSt) : Option Msg := if mh.part == 0 then none else ms.parts[mh.part - 1]?
 
+/-- Where `matches_exec` stands when it has dealt with everything before the `fork` of one exec entry. -/
+inductive AtFork where
+  | abandoned (st : ExecSt)            -- an action before the entry failed: the list is abandoned
+  | nofd (st : ExecSt)                 -- `message_get_fd` failed: the entry fails, there is no fork
+  | fork (st : ExecSt) (fd : Handle)   -- the next call is the fork, `fd` is the child's standard input
+
 /-- `matches_exec` on `pre ++ mh :: post` (`mh` an exec entry with `stdin`) up to the `fork` of `mh`:
-`none` - an action of `pre` failed (the list is abandoned); `some (st', none)` - `message_get_fd`
-failed (the entry fails, no fork); `some (st', some fd)` - the next call is the fork and `fd` is
-the child's standard input. -/
-def uptoFork (env : PEnv) (pre : MatchList) (mh : Match) (st : ExecSt) : Prog (Option (ExecSt × Option Handle)) :=
+the actions of `pre`, then `message_get_fd` for `mh`. -/
+def uptoFork (env : PEnv) (pre : MatchList) (mh : Match) (st : ExecSt) : Prog AtFork :=
   (execList env pre st).bind fun x =>
-    if x.2 = true then .ret none
-    else (messageGetFd env x.1.ms (execPart mh x.1.ms) mh.execBody).bind fun f => .ret (some (x.1, f))
+    if x.2 = true then .ret (.abandoned x.1)
+    else (messageGetFd env x.1.ms (execPart mh x.1.ms) mh.execBody).bind fun f =>
+      .ret (match f with
+        | none => .nofd x.1
+        | some fd => .fork x.1 fd)
 
 /-- The message is open: its descriptor is a read-only handle on a file of the abstract file system
 whose content is `c` (file ids in use are below the next free one), and the directory stream of
@@ -82,11 +102,19 @@ def MsgOpen (w : World) (st : ExecSt) (c : Bytes) : Prop :=
   ∃ h fid off f, st.ms.fd = some h ∧ w.obj h = .file fid off false ∧ fid < w.nextFid ∧ w.file fid = some f ∧ f.data = c ∧
     ∀ d, st.src.dirH = some d → d ≠ h ∧ d < w.handles.length
 
-/-- What the statements say about the descriptor `fd` in the world `w` at the fork: it refers to a
-file whose data is `c`, and the last call issued was a successful `lseek fd`
-(`Call.lseek` IS `lseek(fd, 0, SEEK_SET)`: tools/world.py refuses any other offset or whence). -/
-def RewoundOn (w : World) (fd : Handle) (c : Bytes) (writable : Bool) : Prop :=
-  (∃ fid off f, w.obj fd = .file fid off writable ∧ w.file fid = some f ∧ f.data = c) ∧
+/-- The last call issued was a successful `lseek fd` (`Call.lseek` IS `lseek(fd, 0, SEEK_SET)`:
+tools/world.py refuses any other offset or whence). -/
+def Rewound (w : World) (fd : Handle) : Prop :=
   ∃ r, w.trace.getLast? = some (.lseek fd, r) ∧ r.isErr = false
+
+/-- `exec stdin`: descriptor `fd` is a read-only handle on a file whose data is `c`, rewound. -/
+def RewoundOn (w : World) (fd : Handle) (c : Bytes) : Prop :=
+  (∃ fid off f, w.obj fd = .file fid off false ∧ w.file fid = some f ∧ f.data = c) ∧ Rewound w fd
+
+/-- `exec stdin body`: descriptor `fd` is a handle on a temporary file of its own - not the file the
+message's descriptor refers to - whose data is `body` (as a C string), rewound. -/
+def BodyOn (w : World) (st : ExecSt) (fd : Handle) (body : Bytes) : Prop :=
+  (∃ fid off f, w.obj fd = .file fid off true ∧ w.file fid = some f ∧ f.data = cstr body ∧
+    ∀ h fid' off' wr, st.ms.fd = some h → w.obj h = .file fid' off' wr → fid' ≠ fid) ∧ Rewound w fd
 
 end Mdsort.Spec
